@@ -81,12 +81,15 @@ theorem C09_parser_output_nonblank (lines : List Str) (nodes : List Node) (h : p
 
 /-- no blank line anywhere in the code that can run ⇒ no crash at all -/
 theorem C09_exec_never_crashes (d : Nat) (nodes : List Node) (ctx : Ctx) (st : St) (x : String)
-    (hnodes : allLinesL nonBlank nodes = true) (hst : StOk nonBlank st) : exec d nodes ctx st ≠ .crash x := by
+    (hnodes : allLinesL nonBlank nodes = true) (hst : ∀ c ∈ st.codes, allLinesL nonBlank c = true) :
+    exec d nodes ctx st ≠ .crash x := by
   intro h
-  have h1 := (exec_hereditary hspec_nonBlank d nodes ctx st hnodes hst (fsOk_nonBlank ctx.fs)).ni x h
+  have hst' : StOk nbq st := fun c hc => by rw [show allCmdsL nbq c = allLinesL nonBlank c from allCmdsL_text nonBlank c]; exact hst c hc
+  have hnodes' : allCmdsL nbq nodes = true := by rw [show allCmdsL nbq nodes = allLinesL nonBlank nodes from allCmdsL_text nonBlank nodes]; exact hnodes
+  have h1 := (exec_hereditary hspec_nonBlank d nodes ctx st hnodes' hst' (fsOk_nonBlank ctx.fs)).ni x h
   exact h1 (C09_interpreter_crash_only_blank_line d nodes ctx st x h)
 
-theorem initEnv_ok : StOk nonBlank { env := initEnv } := by
+theorem initEnv_ok : ∀ c ∈ ({ env := initEnv } : St).codes, allLinesL nonBlank c = true := by
   intro c hc
   unfold initEnv at hc
   split at hc <;> simp [St.codes] at hc
